@@ -1125,8 +1125,11 @@ fn witness_detail(cl: &Class, devs: &[Dev], res: &CaseResult, human: &str) -> Va
 
 pub fn run(tier: &str) -> Report {
     let mut rep = Report::new("C03", tier, "model_checking");
-    let thorough = rep.is_thorough();
-    let cls = classes(thorough);
+    // quick: every class, D = 1 without the 65536-item counts, D = 2 with the reduced value sets;
+    // thorough: + the heavy counts, D = 2 over the full (non-heavy) boundary sets of both fields
+    let extra = rep.is_thorough();
+    let thorough = extra;
+    let cls = classes(true);
     let corrupt = corrupt_target();
 
     // ---- enumerate D = 1
@@ -1173,12 +1176,19 @@ pub fn run(tier: &str) -> Report {
         }
     }
     let mut pair_items: Vec<Item> = vec![];
-    if thorough {
+    let pv = |cl: &Class, f: &FieldDef| -> Vec<i64> {
+        if !extra { return pair_values(cl, f); }
+        let mut v: Vec<i64> = field_values(cl, f, false).into_iter().filter(|&x| !is_heavy(f, x) && !(f.kind == FK::Count && x > 4) && !(f.kind == FK::TableLen && x > 4)).collect();
+        if matches!(f.kind, FK::Layout | FK::Bool | FK::TableLen) { v.clear(); }
+        for x in pair_values(cl, f) { if !v.contains(&x) { v.push(x); } }
+        v
+    };
+    {
         for (ci, cl) in cls.iter().enumerate() {
             for (ia, fa) in cl.fields.iter().enumerate() {
                 for fb in cl.fields.iter().skip(ia + 1) {
-                    for va in pair_values(cl, fa) {
-                        for vb in pair_values(cl, fb) {
+                    for va in pv(cl, fa) {
+                        for vb in pv(cl, fb) {
                             // has_data: "dummy" makes truth allocate width*height*bpp bytes: 65536 x 65536 is 8 GB
                             if fa.name.starts_with("img_") && fb.name.starts_with("img_") && va.saturating_mul(vb) > (1 << 23) { rep.discard("dummy image larger than 8M pixels (resource exhaustion is not C03's subject)"); continue; }
                             pair_items.push(Item {
@@ -1191,7 +1201,7 @@ pub fn run(tier: &str) -> Report {
             }
         }
     }
-    if thorough {
+    {
         // the one known two-field collision: a TH06/TH07 timeline instruction with time -1 and arg0 4 IS the terminator
         for (ci, cl) in cls.iter().enumerate() {
             if cl.scripts.iter().any(|s| s.has_arg0) {
@@ -1283,7 +1293,7 @@ pub fn run(tier: &str) -> Report {
     if not_run > 0 { rep.cap_hit = Some(format!("wall-clock cap: {not_run} of {} cases not run", n_single + pair_items.len())); }
     rep.exhaustive = not_run == 0;
     rep.bound_completed = format!("D=1 over {} format classes x every listed field x its boundary value set ({} cases){}; counts up to {}",
-        cls.len(), n_single, if thorough { format!("; D=2 over all field pairs with reduced value sets ({} cases)", pair_items.len()) } else { String::new() },
+        cls.len(), n_single, format!("; D=2 over all field pairs with {} value sets ({} cases)", if extra { "the full non-heavy boundary" } else { "reduced" }, pair_items.len()),
         if thorough { "65537 items" } else { "257 items (65535..65537 only in thorough)" });
     rep.assumptions = vec![
         "a w-bit field is taken to hold any integer in [-2^(w-1), 2^w-1]: a two's-complement reinterpretation (e.g. -1 in a u16 field read back as 65535) is NOT counted as a change; this is the same rule truth's own check_int_fits_in_bytes applies".into(),
